@@ -49,17 +49,20 @@ fcppt::options::optional<Parser>::parse(
 {
   return fcppt::either::match(
       fcppt::options::deref(parser_).parse(fcppt::options::state{_state}, _context),
-      [](fcppt::options::parse_error &&_error) {
+      [&_state](fcppt::options::parse_error &&_error) {
         FCPPT_PP_PUSH_WARNING
         FCPPT_PP_DISABLE_GCC_WARNING(-Wattributes)
 
         return fcppt::variant::match(
             std::move(_error),
-            [](fcppt::options::missing_error &&_missing_error)
+            [&_state](fcppt::options::missing_error &&)
             {
+              // The parser did not match: continue with the untouched state. The
+              // state inside the error may already lack arguments that a part
+              // of the parser (e.g. the left side of a product) had consumed.
               return fcppt::options::parse_result<result_type>{
                   fcppt::options::state_with_value<result_type>{
-                      std::move(_missing_error.state()),
+                      std::move(_state),
                       fcppt::record::init<result_type>(
                           []<typename L, typename T>(fcppt::record::element<L, T>)
                           { return fcppt::optional::nothing{}; })}};
